@@ -155,7 +155,7 @@ def parseHexNat (cs : List Char) : Option Nat :=
     | _, _ => none) (some 0)
 
 /-- hyphenated or simple uuid → 128-bit value -/
-def parseUuid (cs : List Char) : Option Nat :=
+def parseUuidPlain (cs : List Char) : Option Nat :=
   if cs.length = 36 then
     if cs.getD 8 ' ' = '-' ∧ cs.getD 13 ' ' = '-' ∧ cs.getD 18 ' ' = '-' ∧ cs.getD 23 ' ' = '-' then
       let h := cs.filter (· ≠ '-')
@@ -163,6 +163,16 @@ def parseUuid (cs : List Char) : Option Nat :=
     else none
   else if cs.length = 32 then parseHexNat cs
   else none
+
+/-- the forms the `uuid` crate reads: simple, hyphenated, `{hyphenated}`, `urn:uuid:hyphenated` -/
+def parseUuid (cs : List Char) : Option Nat :=
+  if cs.length = 38 ∧ cs.head? = some '{' ∧ cs.getLast? = some '}' then
+    let inner := (cs.drop 1).take 36
+    if inner.length = 36 ∧ inner.getD 8 ' ' = '-' then parseUuidPlain inner else none
+  else if cs.length = 45 ∧ cs.take 9 = "urn:uuid:".toList then
+    let inner := cs.drop 9
+    if inner.getD 8 ' ' = '-' then parseUuidPlain inner else none
+  else parseUuidPlain cs
 
 def daysFromCivil (y : Int) (m d : Nat) : Int :=
   let y' : Int := if m ≤ 2 then y - 1 else y
@@ -243,7 +253,13 @@ def decodeOp : JVal → Option SyncOp
         if tag = "Create".toList then some (.create u)
         else if tag = "Delete".toList then some (.delete u)
         else if tag = "Update".toList then
-          match field "property" fs, field "value" fs, field "timestamp" fs with
+          -- serde: a missing `value` (an `Option`) reads as null; a repeated one is an error
+          let value : Option JVal :=
+            match fs.filter (fun p => p.1 = "value".toList) with
+            | [] => some .null
+            | [(_, v)] => some v
+            | _ => none
+          match field "property" fs, value, field "timestamp" fs with
           | some (.str p), some v, some (.str t) =>
             match parseTimestamp t with
             | none => none
